@@ -413,13 +413,19 @@ func runC19LongInterval(cases []string, out *bufio.Writer, _ []string) {
 		const zeroToUnix = 62135596800
 		var interval time.Duration
 		var boundary time.Time
-		for ahead := int64(3); ahead < 9 && interval == 0; ahead++ {
-			ts := time.Now().Unix() + ahead + zeroToUnix
-			for d := int64(7200 + 37*int64(n)); d < 14*86400; d++ {
-				if ts%d == 0 {
-					interval, boundary = time.Duration(d)*time.Second, time.Unix(ts-zeroToUnix, 0)
-					break
+		// six consecutive seconds can all lack such a divisor (seen once): look again a second later, for up to two minutes
+		for attempt := 0; attempt < 120 && interval == 0; attempt++ {
+			for ahead := int64(3); ahead < 9 && interval == 0; ahead++ {
+				ts := time.Now().Unix() + ahead + zeroToUnix
+				for d := int64(7200 + 37*int64(n)); d < 14*86400; d++ {
+					if ts%d == 0 {
+						interval, boundary = time.Duration(d)*time.Second, time.Unix(ts-zeroToUnix, 0)
+						break
+					}
 				}
+			}
+			if interval == 0 {
+				time.Sleep(time.Second)
 			}
 		}
 		if interval == 0 {
